@@ -1,6 +1,7 @@
 package txmgr
 
 import (
+	"bytes"
 	"encoding/binary"
 	"errors"
 	"fmt"
@@ -96,6 +97,26 @@ func deleteRawUnminedInput(ns mwdb.Bucket, k []byte) error {
 		return fmt.Errorf("failed to delete unmined input: %v", err)
 	}
 	return nil
+}
+
+// removeRawUnminedInputSpender removes one spender from the list of unmined
+// transactions that spend the serialized outpoint; the entry goes away with its
+// last spender.
+func removeRawUnminedInputSpender(ns mwdb.Bucket, k, spender []byte) error {
+	v, err := ns.Get(k)
+	if err != nil || len(v) == 0 {
+		return err
+	}
+	rest := make([]byte, 0, len(v))
+	for ; len(v) >= 32; v = v[32:] {
+		if !bytes.Equal(v[:32], spender) {
+			rest = append(rest, v[:32]...)
+		}
+	}
+	if len(rest) == 0 {
+		return deleteRawUnminedInput(ns, k)
+	}
+	return ns.Put(k, rest)
 }
 
 // fetchUnminedInputSpendTxHashes fetches the list of unmined transactions that
